@@ -66,7 +66,7 @@ def paths(F, fn_path, loop_k=1, closure_k=1, tag=""):
     key = (F.hash, F.cfg, fn_path, loop_k, closure_k, tag)
     if key in _paths_cache:
         return _paths_cache[key]
-    d = os.path.join(CACHE, "paths", "%s-%s" % (F.cfg, F.hash))
+    d = os.path.join(CACHE, "paths", "%s-%s-%s" % (F.cfg, F.hash, engine_salt()))
     os.makedirs(d, exist_ok=True)
     fname = os.path.join(d, re.sub(r"[^A-Za-z0-9_]+", "_", fn_path)[-120:] + "-%d-%d%s.pkl" % (loop_k, closure_k, tag))
     if os.path.exists(fname):
@@ -88,11 +88,27 @@ def paths(F, fn_path, loop_k=1, closure_k=1, tag=""):
     return res
 
 
+_salt = []
+
+
+def engine_salt():
+    """The abstract paths depend on the interpreter's source as well as on the facts."""
+    if not _salt:
+        import hashlib
+        h = hashlib.sha256()
+        here = os.path.dirname(os.path.abspath(__file__))
+        for n in ("explore.py", "conn.py", "frame.py", "facts.py"):
+            with open(os.path.join(here, n), "rb") as fh:
+                h.update(fh.read())
+        _salt.append(h.hexdigest()[:10])
+    return _salt[0]
+
+
 def prune_path_cache(F):
     base = os.path.join(CACHE, "paths")
     if not os.path.isdir(base):
         return
-    keep = "%s-%s" % (F.cfg, F.hash)
+    keep = "%s-%s-%s" % (F.cfg, F.hash, engine_salt())
     ds = sorted((os.path.getmtime(os.path.join(base, n)), n) for n in os.listdir(base) if n.startswith(F.cfg + "-"))
     for _, n in ds[:-3]:
         if n != keep:
@@ -454,3 +470,44 @@ def qos_of(F, p):
 
 def errors(p):
     return [x for x in (word(p) or []) if x.startswith("NotifyError(")]
+
+
+# ----------------------------------------------------------------- relational queries (idiom-independent)
+def lin_ctx(p, interned):
+    """(Lin, facts) of a path: its comparison constraints as linear inequalities over unsigned atoms."""
+    c = getattr(p, "_lin", None)
+    if c is None:
+        import linear
+        lin = linear.Lin(lambda t: expand_all(interned, t))
+        facts = lin.facts_of_cons(p.cons)
+        facts = facts + linear.aux_facts(lin, facts)
+        c = (lin, facts)
+        try:
+            p._lin = c
+        except Exception:
+            pass
+    return c
+
+
+def decide(p, interned, a, op, b):
+    """Truth of `a op b` (op in lt, le, eq; a, b abstract values) on the path, from its linear facts: True / False / None.
+    `x > 0`, `x != 0`, `!(x == 0)`, `0 < x`, `x >= 1` all decide the same query."""
+    import linear
+    lin, facts = lin_ctx(p, interned)
+    la, lb = lin.of_value(a), lin.of_value(b)
+    lt = linear.lin_add(linear.lin_add(la, lb, -1), linear.const(1))      # a - b + 1 <= 0
+    ge = linear.lin_add(lb, la, -1)                                       # b - a <= 0
+    le = linear.lin_add(la, lb, -1)                                       # a - b <= 0
+    gt = linear.lin_add(linear.lin_add(lb, la, -1), linear.const(1))      # b - a + 1 <= 0
+    E = lambda q: linear.entails(facts, q)
+    if op == "lt":
+        return True if E(lt) else (False if E(ge) else None)
+    if op == "le":
+        return True if E(le) else (False if E(gt) else None)
+    if op == "eq":
+        if E(le) and E(ge):
+            return True
+        if E(lt) or E(gt):
+            return False
+        return None
+    raise ValueError(op)
